@@ -462,7 +462,11 @@ func buildAlignPlan(prop string) (*alPlan, error) {
 	// F1: every pair up to length 4 over 2 letters
 	l2 := pickLetters(r, 2)
 	s2 := allStrings(l2, 4)
-	for i, o := range opens(4 * mult) {
+	n1 := 4 * mult
+	if prop == "C08" { // no optimum to compute: events are cheap to judge
+		n1 = 6 * mult
+	}
+	for i, o := range opens(n1) {
 		t := pb.table(genMatrix(r, fmt.Sprintf("seeded-2-%d", i), l2, matOpts{sym: i%2 == 0, open: o}))
 		for _, a := range s2 {
 			for _, b := range s2 {
@@ -503,7 +507,14 @@ func buildAlignPlan(prop string) (*alPlan, error) {
 	// F4: random related pairs up to length 60 over 4 and 23 letters; a few at 200
 	l4 := pickLetters(r, 4)
 	l23 := []byte(proteinLetters)
-	nr := 24 * mult
+	rmult := 1 // random families: the thorough tier has room for many more
+	if big {
+		rmult = 12
+	}
+	nr := 24 * rmult
+	if prop != "C09" {
+		nr = 40 * rmult
+	}
 	for i, o := range opens(2) {
 		t4 := pb.table(genMatrix(r, fmt.Sprintf("seeded-4-%d", i), l4, matOpts{sym: i%2 == 0, open: o}))
 		t23 := pb.table(genMatrix(r, fmt.Sprintf("seeded-23-%d", i), l23, matOpts{sym: i%2 == 1, open: o}))
@@ -513,7 +524,7 @@ func buildAlignPlan(prop string) (*alPlan, error) {
 			a, b = relatedPair(r, l23, 60)
 			pb.call(t23, a, b)
 		}
-		for k := 0; k < mult; k++ { // a few long ones
+		for k := 0; k < (rmult+1)/2; k++ { // a few long ones
 			if (i+k)%2 == 0 {
 				a := randSeq(r, l4, 150+r.Intn(51))
 				pb.call(t4, a, mutate(r, a, l4, 200))
@@ -537,9 +548,9 @@ func buildAlignPlan(prop string) (*alPlan, error) {
 	}
 	// F5: every shipped matrix and Levenshtein (gap-open 0: C08 and C09)
 	if pb.wantsOpen(0) {
-		np := 6 * mult
+		np := 6 * rmult
 		if prop == "C09" {
-			np = 10 * mult
+			np = 10 * rmult
 		}
 		for _, name := range shippedNames {
 			t := pb.table(alTable{Name: name, Kind: "shipped"})
@@ -575,10 +586,10 @@ func buildAlignPlan(prop string) (*alPlan, error) {
 			pb.call(t, []byte{}, []byte{})
 			pb.call(t, randSeq(r, ls, 5), []byte{})
 			pb.call(t, []byte{}, randSeq(r, ls, 5))
-			n := 8 * mult
+			n := 8 * rmult
 			maxLen := 40
 			if i == 3 {
-				n, maxLen = 40*mult, 8
+				n, maxLen = 40*rmult, 8
 			}
 			for k := 0; k < n; k++ {
 				a, b := relatedPair(r, ls, maxLen)
